@@ -347,23 +347,21 @@ def a8(repo, res, canon, logic):
 def a9(repo, res, canon):
     ws = []
     for f in repo.all_functions():
-        fr = Frame(f)
-        for n in walk_no_nested(f.node):
-            if isinstance(n, (ast.AugAssign, ast.Assign)):
-                tg = [n.target] if isinstance(n, ast.AugAssign) else n.targets
-                for t in tg:
-                    if isinstance(t, ast.Attribute) and t.attr == 'telescope_use' and canon.c(t, fr) == USE:
-                        ws.append((f, n))
-    for f, n in ws:
-        fr = Frame(f)
-        what = '`%s` in %s' % (short(ast.unparse(n)), f.qual)
-        if f.name == '__init__' and isinstance(n, ast.Assign) and canon.c(n.value, fr) == '0':
-            res.ok('C08.A9', f, n, what, 'initial value')
+        if f.name == '__init__':
             continue
-        ok = isinstance(n, ast.AugAssign) and canon.c(n.value, fr) == '%s.demand' % f.params[1] and (
-            (f.name == 'begin_observation' and isinstance(n.op, ast.Add)) or
-            (f.name == 'finish_observation' and isinstance(n.op, ast.Sub)))
-        (res.ok if ok else res.bad)('C08.A9', f, n, what, 'ok' if ok else
+        seen = set()
+        for p in cached_paths(f):
+            for e in p.events:
+                for ef in effects_of_event(canon, e):
+                    if ef.loc == USE and id(ef.node) not in seen:
+                        seen.add(id(ef.node))
+                        ws.append((f, ef))
+    for f, ef in ws:
+        what = '`%s` in %s' % (short(ast.unparse(ef.node)), f.qual)
+        dem = '%s.demand' % f.params[1] if len(f.params) > 1 else '?'
+        ok = (f.name == 'begin_observation' and ef.kind == 'aug+' and ef.arg == dem) or \
+             (f.name == 'finish_observation' and ef.kind == 'aug-' and ef.arg == dem)
+        (res.ok if ok else res.bad)('C08.A9', f, ef.node, what, 'ok' if ok else
                                     'telescope_use is changed by something other than +demand at begin / -demand at finish')
     # telescope_status is the derived flag (telescope_use != 0): True next to += demand,
     # False only when the use has dropped to 0.  Observation.is_finished needs it True.
@@ -389,7 +387,18 @@ def a9(repo, res, canon):
                         for i, e in enumerate(p.events):
                             if e.node is n:
                                 must = path_must(logic, p, i)
-                                if Lit('0 == %s' % USE, True) not in must and Lit('truthy(%s)' % USE, False) not in must:
+                                okz = Lit('0 == %s' % USE, True) in must or Lit('truthy(%s)' % USE, False) in must
+                                if not okz:
+                                    # `new = use - demand; self.telescope_use = new; if new == 0:` tests the
+                                    # value just stored
+                                    for x in p.events[:i]:
+                                        if x.kind == 'stmt' and isinstance(x.node, ast.Assign) and any(
+                                                canon.c(t, fr) == USE for t in x.node.targets):
+                                            vs = canon.c(x.node.value, fr)
+                                            a_, b_ = sorted(['0', vs])
+                                            if Lit('%s == %s' % (a_, b_), True) in must or Lit('truthy(%s)' % vs, False) in must:
+                                                okz = True
+                                if not okz:
                                     ok = False
                     (res.ok if ok else res.bad)(
                         'C08.A9', f, n, what, 'under telescope_use == 0' if ok else
@@ -398,7 +407,7 @@ def a9(repo, res, canon):
                         'FINISHED, never frees its arrays, and the simulation cannot terminate')
                 else:
                     res.bad('C08.A9', f, n, what, 'telescope_status set to %s' % v)
-    names = {f.name for f, n in ws}
+    names = {f.name for f, _ in ws}
     for need in ('begin_observation', 'finish_observation'):
         if need not in names:
             res.bad('C08.A9', repo.func('Telescope.' + need), None, '%s does not update telescope_use' % need,
